@@ -45,6 +45,8 @@ type Case struct {
 	// ConnTimeoutUS is the connection-wide timeout; "lock" calls take no per-operation timeout, so
 	// it is the one in force for them (their timeout_us equals it).
 	ConnTimeoutUS int64 `json:"conn_timeout_us"`
+	// RootAttrs: namespace declarations in the reply's root start tag in front of the message-id
+	RootAttrs int `json:"root_attrs,omitempty"`
 }
 
 func gen(t *rapid.T) Case {
@@ -95,16 +97,26 @@ func gen(t *rapid.T) Case {
 	// costing at most the generated delay, the read-loop sleep and one dequeue period of the
 	// NETCONF loop. Timeouts are drawn above it so that "sent in full before the deadline"
 	// implies "can be delivered before the deadline".
-	transitUS := int64(600/minChunk+4)*(maxDelay/1000+2*100) + 1000
+	if rapid.IntRange(0, 3).Draw(t, "rootAttrs") == 0 {
+		c.RootAttrs = rapid.IntRange(1, 9).Draw(t, "nRootAttrs")
+	}
+
+	transitUS := int64((600+60*c.RootAttrs)/minChunk+4)*(maxDelay/1000+2*100) + 1000
 
 	maxN := 12
 	if minChunk == 1 {
 		maxN = 4
+	} else if rapid.IntRange(0, 5).Draw(t, "longHistory") == 0 {
+		// now and then a long session: a late reply must not meet a call many requests later
+		maxN = 40
 	}
 
 	c.ConnTimeoutUS = transitUS + int64(rapid.IntRange(3, 40).Draw(t, "connTimeoutExtraMS"))*1000
 
-	n := rapid.IntRange(2, maxN).Draw(t, "n")
+	n := rapid.IntRange(min(2, maxN), maxN).Draw(t, "n")
+	if maxN == 40 {
+		n = rapid.IntRange(17, 40).Draw(t, "nLong")
+	}
 	for i := 0; i < n; i++ {
 		r := RPC{
 			Behaviour: rapid.SampledFrom([]string{"now", "now", "now", "late", "never"}).Draw(t, "behaviour"),
@@ -169,7 +181,12 @@ func run(c Case) ev.Verdict {
 		}
 
 		spec := c.RPCs[r.Index]
-		payload := fmt.Sprintf(`<rpc-reply xmlns="%s" message-id="%s"><marker>%s</marker><ok/></rpc-reply>`, sim.BaseNS, r.MessageID, spec.Marker)
+		extra := ""
+		for i := 0; i < c.RootAttrs; i++ {
+			extra += fmt.Sprintf(` xmlns:m%d="urn:example:params:xml:ns:yang:module-%d"`, i, i)
+		}
+
+		payload := fmt.Sprintf(`<rpc-reply xmlns="%s"%s message-id="%s"><marker>%s</marker><ok/></rpc-reply>`, sim.BaseNS, extra, r.MessageID, spec.Marker)
 
 		switch spec.Behaviour {
 		case "now":
